@@ -64,6 +64,7 @@ func main() {
 		if run.Gomaxprocs > 0 {
 			runtime.GOMAXPROCS(run.Gomaxprocs)
 		}
+		verifrt.SortMaps = run.SortMaps
 		var res spec.Result
 		switch run.Mode {
 		case "solo", "history":
